@@ -51,7 +51,7 @@ def generate_for(prop, rng):
              min_samples_leaf=msl, min_samples_split=mss,
              max_features=weighted(rng, [(None, 3), (1, 1), (2, 1), (5, 0.5)]),
              max_leaves=weighted(rng, [(None, 3), (2, 1), (3, 1), (5, 1)]),
-             kernel=choice(rng, KERNELS + ["precomputed", "precomputed"]))
+             kernel=choice(rng, KERNELS + KERNELS + ["precomputed"] * 4 + [choice(rng, ["callable:rbf", "callable:laplacian"])]))
     if big:
         p["max_clusters"] = rng.randint(4, 9)
         p["max_leaves"] = weighted(rng, [(None, 3), (6, 1), (9, 1)])
@@ -79,7 +79,7 @@ def generate_for(prop, rng):
             if k == "set_params":
                 op["change"] = choice(rng, [["max_clusters", rng.randint(1, 6)], ["max_features", choice(rng, [None, 1, 2])],
                                             ["max_depth", choice(rng, [None, 1, 2, 3])], ["max_leaves", choice(rng, [None, 2, 3, 5])],
-                                            ["kernel", choice(rng, KERNELS)], ["kernel", choice(rng, KERNELS)],
+                                            ["kernel", choice(rng, KERNELS)], ["kernel", choice(rng, KERNELS + ["callable:linear"])],
                                             ["min_samples_split", max(2, 2 * msl + rng.randint(0, 3))], ["verbose", True]])
             if k == "bad_fit":
                 op["bad"] = choice(rng, [["max_clusters", 0], ["min_samples_split", 1], ["min_samples_leaf", 0]])
@@ -89,6 +89,10 @@ def generate_for(prop, rng):
                 op["crash"] = {"seam": "line", "at": int(math.exp(rng.uniform(0.0, math.log(3000))))}
             ops.append(op)
     ops.append({"op": "fit", "data": 0})
+    for op in ops:
+        if op["op"] == "fit" and rng.random() < 0.12:
+            # a second argument although the kernel is not "precomputed": documented as not used (API consistency)
+            op["stray_y"] = choice(rng, ["matrix", "labels"])
     cfg["n2"] = n if rng.random() < 0.5 else rng.randint(2, 14)
     return {"scenario": "kauri_growth", "config": cfg, "ops": ops, "faults": faults}
 
@@ -455,7 +459,15 @@ def final_checks(res, oracle, model, cfg, X, A, kernel_matrix, query_rs):
     for lf in leaves:
         if not (0 <= t.target[lf] < p["max_clusters"]):
             V("C09:leaf_target", {"leaf": lf, "target": t.target[lf]})
-    pred = model.predict(X)
+    try:
+        pred = model.predict(X)
+    except (SimFault, SimBudget):
+        raise
+    except Exception as e:
+        if is_harness_frame(e):
+            raise
+        V("C09:raised:" + type(e).__name__ + "@predict", {"msg": str(e)[:200]})
+        return
     if not np.array_equal(pred, model.labels_):
         V("C09:predict_vs_labels", {"predict": pred.tolist(), "labels": model.labels_.tolist()})
     # fresh query points, including values equal to thresholds
@@ -487,7 +499,15 @@ def final_checks(res, oracle, model, cfg, X, A, kernel_matrix, query_rs):
         if not np.array_equal(two, want[r:r + 2]):
             V("C09:routing:small_batch", {"rows": [r, r + 1], "got": two.tolist(), "want": want[r:r + 2].tolist()})
             break
-    sc = model.score(X, A)
+    try:
+        sc = model.score(X, A)
+    except (SimFault, SimBudget):
+        raise
+    except Exception as e:
+        if is_harness_frame(e):
+            raise
+        V("C09:raised:" + type(e).__name__ + "@score", {"msg": str(e)[:200]})
+        return
     ref = kkmeans_objective(pred, kernel_matrix)
     tol = 1e-9 * max(1.0, abs(ref), float(np.abs(kernel_matrix).sum()))
     if abs(sc - ref) > tol:
@@ -559,7 +579,27 @@ def execute_for(prop, record):
         rs = SimRandomState(np.random.RandomState(cfg["rs_seed"]), log, rng=sub_rng, subset_mode=faults.get("subset_mode", "faithful"),
                             result=res)
         from ..families import numpy_scalars
-        model = Kauri(random_state=rs, **(numpy_scalars(p) if cfg.get("np_scalars") else p))
+
+        class PairKernel:
+            """A user callable for Kauri: scikit-learn's convention for callable metrics is k(x_i, x_j) -> float on two ROWS."""
+
+            def __init__(self, name):
+                self.name = name
+
+            def __call__(self, a, b, **kw):
+                return float(pairwise_kernels(np.asarray(a)[None, :], np.asarray(b)[None, :], metric=self.name)[0, 0])
+
+            def __deepcopy__(self, memo):
+                return PairKernel(self.name)
+
+        def real_kernel(v):
+            return PairKernel(v.split(":", 1)[1]) if isinstance(v, str) and v.startswith("callable:") else v
+
+        def kernel_name(v):
+            return v.split(":", 1)[1] if v.startswith("callable:") else v
+        p0 = dict(numpy_scalars(p) if cfg.get("np_scalars") else p)
+        p0["kernel"] = real_kernel(p0["kernel"])
+        model = Kauri(random_state=rs, **p0)
         cur = dict(p)                       # the hyper-parameters the user has set so far
         oracle = None
         with world, quiet():
@@ -573,7 +613,15 @@ def execute_for(prop, record):
                         # documented fallback: no matrix passed -> linear kernel (with a warning)
                         kernel_matrix = A if yarg is not None else pairwise_kernels(X, metric="linear")
                     else:
-                        kernel_matrix = pairwise_kernels(X, metric=cur["kernel"])
+                        kernel_matrix = pairwise_kernels(X, metric=real_kernel(cur["kernel"]))
+                        if kind == "fit" and op.get("stray_y"):
+                            srs = np.random.RandomState((cfg["data_seed"] ^ 0x5EED) % (2 ** 31))
+                            if op["stray_y"] == "matrix":
+                                M = srs.normal(size=(len(X), len(X)))
+                                yarg = np.ascontiguousarray((M + M.T) / 2)
+                            else:
+                                yarg = srs.randint(0, 3, size=len(X))
+                            res.probe("fits_with_unused_second_argument")
                     c2 = dict(cfg)
                     c2["params"] = cur
                     oracle = KauriOracle(res, world, c2, faults, X, kernel_matrix, steer_rng)
@@ -615,7 +663,7 @@ def execute_for(prop, record):
                             model.predict(X)
                         elif kind == "set_params":
                             name, val = op["change"]
-                            model.set_params(**{name: val})
+                            model.set_params(**{name: real_kernel(val) if name == "kernel" else val})
                             cur[name] = val
                         elif kind == "crash_fit":
                             from ..seams import LineCrash
